@@ -25,6 +25,7 @@ func propC17() *Property {
 			{ID: "C17.R5", Title: "single values are promoted to one-element lists", Floor: 1, Run: c17R5},
 			{ID: "C17.R6", Title: "the sanitiser behind GetString filters every rune on every path", Floor: 1, Run: scrubIsTotal},
 			{ID: "C17.R7", Title: "an accessor that reports no error hands out a usable value", Floor: 2, Run: c17R7},
+			{ID: "C17.R9", Title: "what an accessor returns depends on the document alone: the accessors and what they call keep no state between calls (same instances as C08.R6)", Floor: 28, Run: c08R6},
 			{ID: "C17.R8", Title: "the number GetNumber hands out is the conversion of the document's own double", Floor: 1, Run: c17R8},
 		},
 	}
